@@ -649,3 +649,341 @@ Proof.
 Qed.
 
 End MoreDict.
+
+(* ######################################################################## *)
+(* SECOND ROUND                                                              *)
+(* ######################################################################## *)
+Require Import Model.SetOps Model.Exec.
+Require Import Proofs.Safety2 Proofs.SetDict Proofs.FmtSerde Proofs.ExecSafe Proofs.ExecUniq Proofs.MoreOwned.
+(* Model.Exec defines its own [elems]; below it always means the live prefix of Spec.v *)
+Local Notation elems := Spec.elems (only parsing).
+
+Section Round2.
+Context {K V Q T : Type} (E : env K V Q T) (debug : bool).
+Context (ck : K -> N) (cq : Q -> N) (HL : Lawful E ck cq).
+Notation M := (M K V T). Notation world := (world K V T). Notation map := (map K V).
+Notation kv := (K * V)%type.
+Notation dict := (@dict K V).
+
+(* ------------------------------------------------------------------------ *)
+(* R1. the observers after a dop2 history (drain / iteration / entry / extend
+       interleaved): against the final state df of the run of the relational
+       specification that the model's results follow                          *)
+Theorem observers_after_history2 n (ops : list (@dop2 K V Q)) s lg :
+  let w0 := {| cb := s; log := lg; self := new_map n |} in
+  exists wf df, mfinal2 E debug ops w0 = Some wf /\
+    druns2 ck cq n ops [] (mrun2 E debug ops w0) df /\
+    @length_ K V T wf = Ok (length df) wf /\
+    @is_empty K V T wf = Ok (match df with [] => true | _ => false end) wf /\
+    @capacity K V T wf = Ok n wf /\
+    length df <= n /\
+    forall q, wp (get_deref E q) (fun r w' => stable wf w' /\ r = d_find ck df (cq q)) (fun _ => False) wf.
+Proof.
+  intros w0.
+  destruct (run2_refines_new E debug ck cq HL n ops s lg) as (wf & df & Hm & Hr & Ha & Hc).
+  exists wf, df. split; [exact Hm|]. split; [exact Hr|].
+  split; [apply (abs_len_op ck wf _ Ha)|]. split; [apply (abs_is_empty_op ck wf _ Ha)|].
+  split; [rewrite <- Hc; reflexivity|].
+  split; [rewrite <- (abs_len ck wf _ Ha), <- Hc; apply (len_le_cap ck wf _ Ha)|].
+  intros q. apply (get_deref_abs E ck cq HL). exact Ha.
+Qed.
+
+(* ------------------------------------------------------------------------ *)
+(* R2. stateful retain INSIDE a history.                                     *)
+
+(* the traversal specification never changes a key and never duplicates one *)
+Lemma Uniq_upd_same_key (l : list kv) i k v v' :
+  nth_error l i = Some (k, v) -> Uniq ck l -> Uniq ck (upd l i (k, v')).
+Proof.
+  intros Hi Hu. unfold Uniq. rewrite d_map_upd. rewrite d_upd_same; [exact Hu|]. cbn [fst].
+  apply (map_nth_error (fun p : kv => ck (fst p)) _ _ Hi).
+Qed.
+
+Lemma l_retain_st_uniq (f : pred_t) : forall fuel i s (l : list kv),
+  Uniq ck l -> Uniq ck (rt_list (l_retain_st E f fuel i s l)).
+Proof.
+  induction fuel as [|fuel IH]; intros i s l Hu; cbn [l_retain_st]; [exact Hu|].
+  destruct (nth_error l i) as [[k v]|] eqn:Hi; [|exact Hu].
+  destruct (f s k v) as [[r v'] s1].
+  pose proof (Uniq_upd_same_key l i k v v' Hi Hu) as Hu1.
+  destruct r as [[|]|]; cbn [rt_cons rt_list rt_end].
+  - apply IH. exact Hu1.
+  - apply IH.
+    assert (Hi1 : nth_error (upd l i (k, v')) i = Some (k, v')).
+    { apply nth_error_upd_eq. apply nth_error_Some. rewrite Hi. discriminate. }
+    exact (proj1 (d_abs_del ck _ _ (ck k) i (k, v') Hu1 (Permutation_refl _) Hi1 eq_refl)).
+  - exact Hu1.
+Qed.
+
+(* operations: the extended operations of Dict2, plus retain with ANY predicate
+   (stateful, value-rewriting, possibly panicking) *)
+Inductive dop3 := D3Base (o : @dop2 K V Q) | D3RetainF (f : @pred_t K V T).
+Inductive dres3 := R3Base (r : @dres2 K V) | R3Unit | R3Panic.
+
+Definition mstep3 (o : dop3) : M dres3 :=
+  match o with
+  | D3Base o => r <- mstep2 E debug o ;; ret (R3Base r)
+  | D3RetainF f => retain E debug f ;; ret R3Unit
+  end.
+
+Definition panic_res3 (o : dop3) : dres3 :=
+  match o with D3Base _ => R3Base RPanic2 | D3RetainF _ => R3Panic end.
+
+(* THE SPECIFICATION of one step (a relation, as dstep2).  retain(f) on the ideal
+   dictionary d: run the traversal specification l_retain_st on SOME enumeration
+   l of d, from SOME callback state s (in the model: the slot order and the
+   callback state at that moment: step3_refines_retain); the new dictionary is
+   what the traversal leaves, the call panics iff a call of f panicked.
+   What the traversal does to the associations is l_retain_st_once: f is called
+   exactly once per association, the survivors are those it answered true for. *)
+Definition dstep3 (n : nat) (o : dop3) (d : dict) (r : dres3) (d' : dict) : Prop :=
+  match o with
+  | D3Base o => exists r2, dstep2 ck cq n o d r2 d' /\ r = R3Base r2
+  | D3RetainF f =>
+      exists s l, Permutation l d /\
+        Permutation (rt_list (l_retain_st E f (length l) 0 s l)) d' /\
+        r = if rt_ok (l_retain_st E f (length l) 0 s l) then R3Unit else R3Panic
+  end.
+
+(* retain(f) from a represented state, with the witnesses made explicit *)
+Lemma step3_refines_retain (f : pred_t) w d :
+  Abs ck (self w) d ->
+  let o := l_retain_st E f (length (elems (self w))) 0 (cb w) (elems (self w)) in
+  wp (retain E debug f)
+     (fun _ w' => rt_ok o = true /\ Abs ck (self w') (rt_list o) /\ elems (self w') = rt_list o /\
+                  cap (self w') = cap (self w) /\ cb w' = rt_cb o /\ log w' = log w ++ rt_log o)
+     (fun w' => rt_ok o = false /\ Abs ck (self w') (rt_list o) /\ elems (self w') = rt_list o /\
+                  cap (self w') = cap (self w) /\ cb w' = rt_cb o /\ log w' = log w ++ rt_log o) w.
+Proof.
+  intros (Hw & Hu & Hp) o.
+  assert (Huo : Uniq ck (rt_list o)) by (apply l_retain_st_uniq; exact Hu).
+  eapply wp_mono; [apply (retain_stateful E debug ck cq HL f w Hw) | |]; cbn beta; fold o.
+  - intros _ w' (Hok & Hw' & Hc' & He' & Hcb' & Hl').
+    split; [exact Hok|]. split; [|repeat split; assumption].
+    split; [exact Hw'|]. rewrite He'. split; [exact Huo | apply Permutation_refl].
+  - intros w' (Hok & Hw' & Hc' & He' & Hcb' & Hl').
+    split; [exact Hok|]. split; [|repeat split; assumption].
+    split; [exact Hw'|]. rewrite He'. split; [exact Huo | apply Permutation_refl].
+Qed.
+
+Theorem step3_refines n o w d :
+  Abs ck (self w) d -> cap (self w) = n ->
+  match mstep3 o w with
+  | Ok r w' => exists d', dstep3 n o d r d' /\ Abs ck (self w') d' /\ cap (self w') = n
+  | Panic w' => exists d', dstep3 n o d (panic_res3 o) d' /\ Abs ck (self w') d' /\ cap (self w') = n
+  | UB => False
+  end.
+Proof.
+  intros Ha Hc. destruct o as [o|f]; cbn [mstep3 panic_res3 dstep3].
+  - pose proof (step2_refines E debug ck cq HL n o w d Ha Hc) as Hs. unfold bind, ret.
+    destruct (mstep2 E debug o w) as [r w'|w'|]; [| |exact Hs].
+    + destruct Hs as (d' & Hst & Ha' & Hc'). exists d'. split; [exists r; split; [exact Hst | reflexivity]|].
+      split; assumption.
+    + destruct Hs as (d' & Hst & Ha' & Hc'). exists d'. split; [exists RPanic2; split; [exact Hst | reflexivity]|].
+      split; assumption.
+  - pose proof (step3_refines_retain f w d Ha) as Hs. cbv zeta in Hs. unfold wp in Hs. unfold bind, ret.
+    pose proof Ha as (_ & _ & Hp).
+    destruct (retain E debug f w) as [u w'|w'|]; [| |exact Hs].
+    + destruct Hs as (Hok & Ha' & _ & Hc' & _).
+      exists (rt_list (l_retain_st E f (length (elems (self w))) 0 (cb w) (elems (self w)))).
+      split; [|split; [exact Ha' | congruence]].
+      exists (cb w), (elems (self w)). split; [exact Hp|]. split; [apply Permutation_refl|].
+      rewrite Hok. reflexivity.
+    + destruct Hs as (Hok & Ha' & _ & Hc' & _).
+      exists (rt_list (l_retain_st E f (length (elems (self w))) 0 (cb w) (elems (self w)))).
+      split; [|split; [exact Ha' | congruence]].
+      exists (cb w), (elems (self w)). split; [exact Hp|]. split; [apply Permutation_refl|].
+      rewrite Hok. reflexivity.
+Qed.
+
+Fixpoint mrun3 (ops : list dop3) (w : world) : list dres3 :=
+  match ops with
+  | [] => []
+  | o :: t => match mstep3 o w with
+              | Ok r w' => r :: mrun3 t w'
+              | Panic w' => panic_res3 o :: mrun3 t w'
+              | UB => []
+              end
+  end.
+
+Fixpoint mfinal3 (ops : list dop3) (w : world) : option world :=
+  match ops with
+  | [] => Some w
+  | o :: t => match mstep3 o w with
+              | Ok _ w' => mfinal3 t w'
+              | Panic w' => mfinal3 t w'
+              | UB => None
+              end
+  end.
+
+Inductive druns3 (n : nat) : list dop3 -> dict -> list dres3 -> dict -> Prop :=
+| druns3_nil d : druns3 n [] d [] d
+| druns3_cons o ops d r d' rs df :
+    dstep3 n o d r d' -> druns3 n ops d' rs df -> druns3 n (o :: ops) d (r :: rs) df.
+
+(* any history mixing the 13 operations, drain, iteration, entry, extend AND
+   retain with stateful predicates: no UB, the results are those of SOME run of
+   the relational specification, whose final state the final container
+   represents; capacity unchanged *)
+Theorem run3_refines n ops w d :
+  Abs ck (self w) d -> cap (self w) = n ->
+  exists wf df, mfinal3 ops w = Some wf /\ druns3 n ops d (mrun3 ops w) df /\
+                Abs ck (self wf) df /\ cap (self wf) = n.
+Proof.
+  revert w d; induction ops as [|o t IH]; intros w d Ha Hc.
+  - exists w, d. split; [reflexivity|]. split; [apply druns3_nil|]. split; assumption.
+  - cbn [mrun3 mfinal3]. pose proof (step3_refines n o w d Ha Hc) as Hs.
+    destruct (mstep3 o w) as [r w'|w'|]; [| |destruct Hs].
+    + destruct Hs as (d' & Hst & Ha' & Hc').
+      destruct (IH w' d' Ha' Hc') as (wf & df & Hf & Hr & Haf & Hcf).
+      exists wf, df. split; [exact Hf|]. split; [|split; assumption].
+      eapply druns3_cons; eassumption.
+    + destruct Hs as (d' & Hst & Ha' & Hc').
+      destruct (IH w' d' Ha' Hc') as (wf & df & Hf & Hr & Haf & Hcf).
+      exists wf, df. split; [exact Hf|]. split; [|split; assumption].
+      eapply druns3_cons; eassumption.
+Qed.
+
+Theorem run3_refines_new n ops s lg :
+  let w0 := {| cb := s; log := lg; self := new_map n |} in
+  exists wf df, mfinal3 ops w0 = Some wf /\ druns3 n ops [] (mrun3 ops w0) df /\
+                Abs ck (self wf) df /\ cap (self wf) = n.
+Proof. intros w0. apply run3_refines; cbn [w0 self]; [apply Abs_new | apply cap_new]. Qed.
+
+(* the specification of D3RetainF is conservative over DRetain: for a pure
+   closure g the traversal on ANY enumeration of d leaves the dictionary
+   dstep (DRetain g) computes *)
+Lemma dstep3_retain_pure n (f : pred_t) (g : K -> V -> bool * V) d r d' :
+  (forall s k v, fst (f s k v) = (Some (fst (g k v)), snd (g k v))) ->
+  Uniq ck d ->
+  dstep3 n (D3RetainF f) d r d' ->
+  r = R3Unit /\ Permutation d' (snd (dstep ck cq n (DRetain g) d)).
+Proof.
+  intros Hf Hu (s & l & Hp & Hd' & ->). cbn [dstep snd].
+  destruct (l_retain_st_pure E f g Hf (length l) 0 s l) as [Hl Hok]. rewrite Hok. split; [reflexivity|].
+  rewrite Hl in Hd'. eapply perm_trans; [apply Permutation_sym; exact Hd'|].
+  apply (d_abs_retain ck g l d); [|exact Hp].
+  eapply (d_Uniq_perm ck); [apply Permutation_sym; exact Hp | exact Hu].
+Qed.
+
+(* ------------------------------------------------------------------------ *)
+(* R7. get_disjoint_mut never aliases - on every REACHABLE state, for EVERY
+       environment (== may lie or panic, Drop may panic, any retain closure)  *)
+Definition disjoint_safe_post (ks : list Q) (w : world) (r : list (option nat)) (w' : world) : Prop :=
+  self w' = self w /\ length r = length ks /\
+  (forall j i, nth_error r j = Some (Some i) -> i < len (self w)) /\
+  (forall j1 j2 i, nth_error r j1 = Some (Some i) -> nth_error r j2 = Some (Some i) -> j1 = j2).
+
+End Round2.
+
+Section AnyEnv.
+Context {K V Q T : Type} (E : env K V Q T) (debug : bool).
+Notation world := (world K V T).
+
+Theorem disjoint_safe_reachable n (ops : list (@dop K V Q)) s lg ks :
+  exists wf, mfinal E debug ops {| cb := s; log := lg; self := new_map n |} = Some wf /\
+    wp (get_disjoint_mut E ks) (disjoint_safe_post ks wf) (fun w' => self w' = self wf) wf /\
+    wp (get_disjoint_unchecked_mut E ks) (disjoint_safe_post ks wf) (fun w' => self w' = self wf) wf.
+Proof.
+  destruct (mrun_any_env_safe E debug ops {| cb := s; log := lg; self := new_map n |} (WF_new n))
+    as (wf & Hm & Hw & _).
+  exists wf. split; [exact Hm|].
+  split; [apply (disjoint_safe E ks wf Hw) | apply (disjoint_unchecked_safe E ks wf Hw)].
+Qed.
+
+Theorem disjoint_safe_reachable2 n (ops : list (@dop2 K V Q)) s lg ks :
+  exists wf, mfinal2 E debug ops {| cb := s; log := lg; self := new_map n |} = Some wf /\
+    wp (get_disjoint_mut E ks) (disjoint_safe_post ks wf) (fun w' => self w' = self wf) wf /\
+    wp (get_disjoint_unchecked_mut E ks) (disjoint_safe_post ks wf) (fun w' => self w' = self wf) wf.
+Proof.
+  destruct (mrun2_any_env_safe E debug ops {| cb := s; log := lg; self := new_map n |} (WF_new n))
+    as (wf & Hm & Hw & _).
+  exists wf. split; [exact Hm|].
+  split; [apply (disjoint_safe E ks wf Hw) | apply (disjoint_unchecked_safe E ks wf Hw)].
+Qed.
+
+End AnyEnv.
+
+(* ------------------------------------------------------------------------ *)
+(* R4. Set: every yielded key can be looked up.                              *)
+Section SetYield.
+Context {K Q T : Type} (E : env K unit Q T) (debug : bool).
+Context (ck : K -> N) (cq : Q -> N) (HL : Lawful E ck cq).
+Notation world := (world K unit T).
+
+Theorem s_yielded_contains q i k w :
+  WF (self w) -> Uniq ck (elems (self w)) ->
+  nth_error (elems (self w)) i = Some (k, tt) -> cq q = ck k ->
+  wp (s_contains E q) (fun b w' => b = true /\ stable w w') (fun _ => False) w.
+Proof.
+  intros Hw Hu Hi Hq.
+  eapply wp_mono; [apply (s_contains_lawful E ck cq HL q w Hw) | | intros ? []]; cbn beta.
+  intros r w' [Hst ->]. rewrite Hq.
+  pose proof (find_idx_uniq_nth ck (elems (self w)) i (k, tt) Hu Hi) as Hfi. cbn [fst] in Hfi.
+  rewrite Hfi. split; [reflexivity | exact Hst].
+Qed.
+
+(* Set::get returns a reference to the stored element: the slot it was yielded from *)
+Theorem s_yielded_get q i k w :
+  WF (self w) -> Uniq ck (elems (self w)) ->
+  nth_error (elems (self w)) i = Some (k, tt) -> cq q = ck k ->
+  wp (s_get E q) (fun r w' => r = Some i /\ stable w w') (fun _ => False) w.
+Proof.
+  intros Hw Hu Hi Hq.
+  eapply wp_mono; [apply (s_get_lawful E ck cq HL q w Hw) | | intros ? []]; cbn beta.
+  intros r w' [Hst ->]. rewrite Hq.
+  pose proof (find_idx_uniq_nth ck (elems (self w)) i (k, tt) Hu Hi) as Hfi. cbn [fst] in Hfi.
+  rewrite Hfi. split; [reflexivity | exact Hst].
+Qed.
+
+(* on every state reached from Set::new() of any capacity by any history of Set
+   operations (container-raised panics included) *)
+Theorem s_yielded_reachable n (ops : list (@sop K Q)) t lg :
+  exists wf, smfinal E debug ops {| cb := t; log := lg; self := new_map n |} = Some wf /\
+    forall q i k, nth_error (elems (self wf)) i = Some (k, tt) -> cq q = ck k ->
+      wp (s_contains E q) (fun b w' => b = true /\ stable wf w') (fun _ => False) wf /\
+      wp (s_get E q) (fun r w' => r = Some i /\ stable wf w') (fun _ => False) wf.
+Proof.
+  destruct (srun_refines_state_new E debug ck cq HL n ops t lg) as (wf & Hm & (Hw & Hu & _) & _).
+  exists wf. split; [exact Hm|]. intros q i k Hi Hq.
+  split; [apply (s_yielded_contains q i k wf Hw Hu Hi Hq) | apply (s_yielded_get q i k wf Hw Hu Hi Hq)].
+Qed.
+
+End SetYield.
+
+(* ------------------------------------------------------------------------ *)
+(* R5. interpreter level: after ANY history of the interpreter's operations
+       (Exec.op: every API entry point) under an honest script, in each of the
+       four registers every yielded key looks up its own slot.  The world is the
+       one Exec.run_m / run_s build for an operation on register r (any callback
+       state and log; OGet / OGetKV / SContains ... run exactly these calls).   *)
+Theorem run_final_yielded_get debug sc ops c0 c1 c2 c3 :
+  honest sc -> Forall safe_op ops ->
+  let x := run_final debug sc ops (init_world c0 c1 c2 c3) in
+  (forall r q i p s lg, nth_error (elems (get_m r x)) i = Some p -> qcls q = kcls (fst p) ->
+     let w := {| cb := s; log := lg; self := get_m r x |} in
+     wp (get (env_map sc) q) (fun o w' => o = Some i /\ stable w w') (fun _ => False) w /\
+     wp (get_key_value (env_map sc) q) (fun o w' => o = Some i /\ stable w w') (fun _ => False) w /\
+     wp (get_deref (env_map sc) q) (fun o w' => o = Some p /\ stable w w') (fun _ => False) w) /\
+  (forall r q i k s lg, nth_error (elems (get_s r x)) i = Some (k, tt) -> qcls q = kcls k ->
+     let w := {| cb := s; log := lg; self := get_s r x |} in
+     wp (s_contains (env_set sc) q) (fun b w' => b = true /\ stable w w') (fun _ => False) w /\
+     wp (s_get (env_set sc) q) (fun o w' => o = Some i /\ stable w w') (fun _ => False) w).
+Proof.
+  intros Hh Hs x.
+  destruct (run_uniq_init debug sc ops c0 c1 c2 c3 Hh Hs) as ((W0 & W1 & W2 & W3 & _) & (U0 & U1 & U2 & U3) & _).
+  fold x in W0, W1, W2, W3, U0, U1, U2, U3.
+  pose proof (env_map_lawful sc Hh) as Lm. pose proof (env_set_lawful sc Hh) as Ls.
+  split.
+  - intros r q i p s lg Hi Hq w.
+    assert (Hw : WF (self w)) by (unfold w; cbn [self]; unfold get_m; destruct (N.eqb r 0); assumption).
+    assert (Hu : Uniq kcls (elems (self w))) by (unfold w; cbn [self]; unfold get_m; destruct (N.eqb r 0); assumption).
+    split; [apply (yielded_get _ kcls qcls Lm q i p w Hw Hu Hi Hq)|].
+    split; [apply (yielded_get_key_value _ kcls qcls Lm q i p w Hw Hu Hi Hq)
+           | apply (yielded_get_deref _ kcls qcls Lm q i p w Hw Hu Hi Hq)].
+  - intros r q i k s lg Hi Hq w.
+    assert (Hw : WF (self w)) by (unfold w; cbn [self]; unfold get_s; destruct (N.eqb r 2); assumption).
+    assert (Hu : Uniq kcls (elems (self w))) by (unfold w; cbn [self]; unfold get_s; destruct (N.eqb r 2); assumption).
+    split; [apply (s_yielded_contains _ kcls qcls Ls q i k w Hw Hu Hi Hq)
+           | apply (s_yielded_get _ kcls qcls Ls q i k w Hw Hu Hi Hq)].
+Qed.
